@@ -128,6 +128,7 @@ def run(ctx):
         for fw in gfws:
             impl = wsrun.run_impl(scripts, fw, nproc=16)
             model = wsrun.run_model(ctx.driver, scripts, fw)
+            impl = wsrun.stabilise(scripts, fw, impl, model, res.notes)
             res.evaluations += len(scripts)
             res.count(f"{name}:{fw}", len(scripts))
             by_stream = {}
